@@ -28,6 +28,8 @@ def levels(tier):
             {"name": "n1", "pools": pools, "sparse": True, "n": 1, "alphabet": alpha, "backends": ["file", "memory"], "links_batch": 2},
             {"name": "n2", "pools": pools, "sparse": True, "n": 2, "alphabet": ["page", "links", "we"], "backends": ["file"], "links_batch": 1},
             {"name": "clear-n3", "pools": [[[1], [1, 1], [2]]], "n": 3, "alphabet": ["page", "links", "clear"], "backends": ["file", "memory"], "links_batch": 1},
+            {"name": "batch-n1", "pools": [[[1], [1, 1], [2]]], "n": 1, "alphabet": ["batch"], "batch_sources": 2, "batch_targets": 2,
+             "backends": ["memory"], "yield_frequencies": [50, 1]},
         ]
     pools = [
         [[74], [74, 1], [1]],
